@@ -9,6 +9,8 @@ package c11
 import (
 	"io"
 	"math/rand"
+	"runtime"
+	"sync"
 	"time"
 
 	"verifharness/lib"
@@ -26,7 +28,7 @@ func (Prop) Assumptions() []string {
 		"inputs are delivered at the exported entry points the transport/sync layers call, assembled from wire fields the way the call sites do (no nil wrapper structs a peer cannot cause)",
 		"signed formats: deep mutants are re-signed by a legitimate author (a hostile but authorised member/admin, or the space owner), never by forging another account's signature",
 		"ciphertext and nonce bytes, timestamps and ephemeral keys come from crypto/rand and time.Now inside the real builders, so replay reproduces the mutation sequence, not the exact bytes; every violation carries the exact input in hex",
-		"the allocation monitor uses runtime.MemStats.TotalAlloc (cumulative, GC independent) of the whole worker process, measured around a call that runs alone",
+		"the allocation monitor reads the cumulative allocated-bytes counter of the whole worker process (runtime/metrics /gc/heap/allocs:bytes, the non-stop-the-world twin of MemStats.TotalAlloc; GC independent) around a call that runs alone",
 	}
 }
 
@@ -88,7 +90,12 @@ func (Prop) Plan(tier string) []lib.Workload {
 
 func allTargets() []target { return targets }
 
+var procsOnce sync.Once
+
 func (Prop) RunCase(c *lib.Case) {
+	// a worker runs one call at a time; few Ps keep the stop-the-world reads of
+	// MemStats around every call cheap (16 workers share the machine)
+	procsOnce.Do(func() { runtime.GOMAXPROCS(2) })
 	name := c.Workload
 	if len(name) > 5 && name[len(name)-5:] == ".race" {
 		name = name[:len(name)-5]
